@@ -555,6 +555,10 @@ def run(ctx):
             out.sample({"sorting": sort, "deviations": kinds, "excs": [s["exc"] for s in i["steps"]]})
     history_cases(ctx, out)
     scheme_value_cases(ctx, out)
+    # the translated hook bodies, interpreted, against the real methods (validates the PyIR interpreter and the translator)
+    from .. import bodycases
+    bodycases.hook_cases(ctx, out)
+    bodycases.translation_report(ctx, out)
     return out
 
 
